@@ -276,6 +276,8 @@ def _run_variant(pid, root, kind, idx, variant):
 # reach, with the reason (see DESIGN.md 6)
 SEED_NOT_REACHED = {
     'C05-B': 'numerical behaviour of the Raman solver grid (interpolation at the fibre end): not a structural property',
+    'C03-A5': 'beta2 rewritten into an algebraically identical expression that overflows int64 for integer-typed frequencies: the value '
+              'graph works over the reals (DESIGN.md 9: floating point / machine integers are ignored)',
 }
 
 
